@@ -1,7 +1,7 @@
 """C03 - head framing: Complete(n) ends exactly at the first empty line; Partial only while there is none."""
 from .jobs import *
 REQUIRED_WITNESSES = ['C', 'C+hdr', 'P']
-BOUNDS = {'quick': 'parse_headers: every buffer to 10 bytes; requests/responses behind a concrete start line: every header block to 7 bytes (default config), to 6/7 bytes with all header options symbolic; fully symbolic start lines to 8 (request) / 12 (response) bytes; chunk sizes to 6 bytes',
+BOUNDS = {'quick': 'parse_headers: every buffer to 10 bytes; requests/responses behind a concrete start line: every header block to 7 bytes (default config), to 6/7 bytes with all header options symbolic; fully symbolic start lines to 8 (request) / 12 (response) bytes; chunk sizes to 5 bytes',
           'thorough': 'parse_headers to 13 bytes; message header blocks to 10 (default) / 8-9 (options symbolic); start lines to 11 / 15; chunk sizes to 8'}
 OUTSIDE = 'longer inputs; with allow_space_before_first_header_name the expected n is the reference parser\'s n, not the option-free linear scan'
 EXPLANATION = 'n is compared on every path with an independent linear scan for the first empty line (refmodel::first_empty_line / head_end_message executed as MIR on the same symbolic bytes)'
@@ -12,7 +12,7 @@ def jobs(tier, seed):
     P = 'C03'; G = ['framing']
     J = header_families(P, G, tier)
     J += startline_families(P, G, tier)
-    J += deepen(P, G, 'chunk', lambda n: sc('chunk', n), range(0, T(tier, 6, 8) + 1), T(tier, 60, 600), 'parse_chunk_size, every {n}-byte buffer', 5)
+    J += deepen(P, G, 'chunk', lambda n: sc('chunk', n), range(0, T(tier, 5, 8) + 1), T(tier, 60, 600), 'parse_chunk_size, every {n}-byte buffer', 4)
     # chunk-size lines whose extension / line end is symbolic, followed by a real CRLF (n must stop at the FIRST one)
     for nm, pre, suf, top in (('chunk-ext', b'1;', b'\r\n', 4), ('chunk-ext-tail', b'1f ;x', b'\r\nAB\r\n', 3), ('chunk-digits-tail', b'a', b'\r\n0\r\n', 3)):
         J += deepen(P, G, nm, lambda n, pre=pre, suf=suf: sc('chunk', n, prefix=pre, suffix=suf), range(1, T(tier, top, top + 2) + 1), T(tier, 60, 400),
@@ -20,7 +20,7 @@ def jobs(tier, seed):
     # with a header stored before: the space-before-first option must stop applying
     J += deepen(P, G, 'resp-after-header', lambda n: sc('resp', n, prefix=RESP_LINE + b'a:b\r\n', api='cfg', fl=RESP_HDR_SYM, cap=2),
                 range(3, T(tier, 5, 7) + 1), T(tier, 100, 900), 'response, start line + "a:b" line + every {n}-byte remainder, 4 header options symbolic', 4)
-    J += sliding_families(P, G, tier, step=T(tier, 6, 1), pool=T(tier, ('req-post', 'resp-fold'), None))
+    J += sliding_families(P, G, tier, step=T(tier, 4, 1), pool=T(tier, ('resp-fold',), None))
     # a header line longer than one / two vector widths, then the empty line, then a long body (vector scanners must not run past the line end)
     for variant in ('x86-avx2-ct', 'x86-sse42-ct', 'swar-rel'):
         for fill in (14, 31, 33, 47, 62):
